@@ -31,7 +31,7 @@ from wgverif import env  # noqa: F401
 from wgverif.oracles import c13_ref as R
 
 PROPERTY = "C13"
-RULE = ("exact: stratified over every odd N in 3..13 x M in {3,4,5,8,12,20} x grid class "
+RULE = ("exact: stratified over every odd N in 3..13 (plus 15, 19, 25 at small M) x M in {3,4,5,8,12,20} x grid class "
         "{Grid, Grid3Scales} x input basis (Cardinal/Chebyshev in z and in momenta) x "
         "momentum scale T0 = 10^U(-2,2) x mass profile {massless, const 0.1/1/10 T0, wall "
         "0->0.3..10 T0, two-field} x 1-3 species (both statistics, random DOFs) x boundary "
@@ -63,17 +63,19 @@ FLOORS = {
                       "basis=Cardinal/Cardinal": 50, "basis=Cardinal/Chebyshev": 30,
                       "basis=Chebyshev/Chebyshev": 15, "basis=Chebyshev/Cardinal": 15,
                       "grid=Grid": 60, "grid=Grid3Scales": 60, "mass=massless": 15,
-                      "mass=const10": 10, "mass=wall10": 10, "deg=max": 80}},
-    "thorough": {"distinct_nontrivial": 3500,
-                 "mon": {"getDeltas_calls": 30000, "rows_Delta00": 8000, "rows_Delta02": 8000,
-                         "rows_Delta20": 8000, "rows_Delta11": 8000, "tmunu_calls": 60000,
-                         "tmunu_onehot": 20000, "additivity_rows": 20000,
-                         "scaling_rows": 20000, "oracle_selftest_ok": 20,
+                      "mass=const10": 10, "mass=wall10": 10, "deg=max": 80,
+                      "rescale=momentum": 30, "rescale=position": 30}},
+    "thorough": {"distinct_nontrivial": 3000,
+                 "mon": {"getDeltas_calls": 18000, "rows_Delta00": 6000, "rows_Delta02": 6000,
+                         "rows_Delta20": 6000, "rows_Delta11": 6000, "tmunu_calls": 30000,
+                         "tmunu_onehot": 11000, "additivity_rows": 100000,
+                         "scaling_rows": 100000, "oracle_selftest_ok": 22,
                          "smooth_recorded": 250},
                  "cls": {"N=3": 300, "N=5": 300, "N=7": 300, "N=9": 300, "N=11": 300,
                          "N=13": 300, "basis=Chebyshev/Chebyshev": 200,
                          "grid=Grid3Scales": 1000, "mass=massless": 300, "mass=const10": 150,
-                         "mass=wall10": 150, "deg=max": 1000}},
+                         "mass=wall10": 150, "deg=max": 1000, "rescale=momentum": 500,
+                         "rescale=position": 500}},
 }
 
 EPS = R.EPS
@@ -103,29 +105,38 @@ def _exact_case(rng, N, M, i):
             "P": P, "bM": bM, "bN": bN, "kpow": int(rng.integers(1, kmax + 1)),
             "deg": "max" if rng.random() < 0.5 else "rand",
             "junk": bool(rng.random() < 0.5), "beyond": bool(rng.random() < 0.25),
+            "rescale": str(rng.choice(("none", "none", "momentum", "position"))),
             "s": int(rng.integers(1 << 30))}
 
 
 def generate(tier, seed):
     rng = np.random.default_rng(1300 + seed)
     cases = []
-    reps = 4 if tier == "quick" else 40
+    reps = 4 if tier == "quick" else 60
     for N in NS:
         for M in MS:
             if (M - 1) * (N - 1) ** 2 > MAX_ROWS:
                 continue
             for _ in range(reps):
                 cases.append(_exact_case(rng, N, M, len(cases)))
+    # beyond the design's 3..13: the quantifier says every odd N
+    for N in (15, 19, 25):
+        for M in (3, 4):
+            for _ in range(1 if tier == "quick" else 12):
+                c = _exact_case(rng, N, M, len(cases))
+                c["P"] = 1
+                cases.append(c)
     # stratification that the random draw above must not be trusted to deliver:
     # every (N, mass kind, basis pair) at least once per run
-    for N in NS:
-        for mk in MASS_KINDS:
-            for bM, bN in set(BASES):
-                if tier == "quick" and rng.random() < 0.35:
-                    continue
-                c = _exact_case(rng, N, int(rng.choice((3, 4, 5, 8))), len(cases))
-                c.update(mass=mk, bM=bM, bN=bN)
-                cases.append(c)
+    for _ in range(1 if tier == "quick" else 8):
+        for N in NS:
+            for mk in MASS_KINDS:
+                for bM, bN in sorted(set(BASES)):
+                    if tier == "quick" and rng.random() < 0.35:
+                        continue
+                    c = _exact_case(rng, N, int(rng.choice((3, 4, 5, 8))), len(cases))
+                    c.update(mass=mk, bM=bM, bN=bN)
+                    cases.append(c)
     # oracle self-test: construction vs dblquad (8 cases) + stress tensor vs tplquad (1-2)
     nst = 1 if tier == "quick" else 2
     for rep in range(nst):
@@ -149,6 +160,7 @@ def generate(tier, seed):
         cases.append({"kind": "smooth", "N": int(NS[j % len(NS)]),
                       "logT0": float(rng.uniform(-2, 2)),
                       "m": float(rng.choice((0.0, 0.3, 1.0, 3.0, 10.0))),
+                      "pure": bool((j // len(NS)) % 2 == 0),
                       "s": int(rng.integers(1 << 30))})
     # cheap first, expensive spread out: shuffle deterministically so chunks are balanced
     order = rng.permutation(len(cases))
@@ -193,13 +205,23 @@ def _build(case, rng):
     N, M, P = case["N"], case["M"], case["P"]
     T0 = 10.0 ** case["logT0"]
     L = float(10 ** rng.uniform(-1, 1)) / T0
+    resc = case.get("rescale", "none")
+    Tc = T0 * (float(rng.uniform(0.2, 5.0)) if resc == "momentum" else 1.0)   # construction scale
     if case["grid"] == "Grid":
-        grid = WallGo.Grid(M, N, L, T0)
+        grid = WallGo.Grid(M, N, L, Tc)
+        if resc == "position":
+            grid.changePositionFalloffScale(L * float(rng.uniform(0.3, 3.0)))
     else:
         ratio, smooth = float(rng.uniform(0.3, 0.7)), float(rng.uniform(0.05, 0.2))
         tmin = L * (0.5 + smooth) / ratio          # constructor's documented lower bound
         grid = Grid3Scales(M, N, tmin * float(rng.uniform(1.2, 5)), tmin * float(rng.uniform(1.2, 5)),
-                           L, T0, ratioPointsWall=ratio, smoothing=smooth)
+                           L, Tc, ratioPointsWall=ratio, smoothing=smooth)
+        if resc == "position":     # what EOM._updateGrid does between pressure evaluations
+            grid.changePositionFalloffScale(tmin * float(rng.uniform(1.2, 5)),
+                                            tmin * float(rng.uniform(1.2, 5)), L,
+                                            float(rng.uniform(-1, 1)) * L)
+    if resc == "momentum":
+        grid.changeMomentumFalloffScale(T0)
     chi = R.chi_nodes(M, endpoints=True)
     a0, a1 = rng.uniform(-0.15, 0.15, size=2)
     phi0 = 0.5 * (1.0 - chi) + a0 * np.sin(np.pi * chi)
@@ -208,6 +230,9 @@ def _build(case, rng):
     particles, specs = [], []
     for a in range(P):
         c0, ys = _mass_params(case["mass"], T0, rng)
+        if a > 0:      # species differ in mass (same kind, 60-100 % of the nominal value)
+            fa = float(rng.uniform(0.6, 1.0))
+            c0, ys = c0 * fa * fa, (ys[0] * fa, ys[1] * fa)
         stat = "Fermion" if rng.random() < 0.5 else "Boson"
         dof = int(rng.integers(1, 25))
         particles.append(WallGo.Particle(f"p{a}", a, _make_msq(c0, ys), lambda f: 0.0 * f,
@@ -297,7 +322,8 @@ def _case_exact(case):
     for nm in R.MOMENTS:
         mon["rows_" + nm] = 0
     cls = [f"N={N}", f"M={M}", f"basis={bM}/{bN}", f"grid={case['grid']}",
-           f"mass={case['mass']}", f"deg={case['deg']}", f"kpow={case['kpow']}", f"P={P}"]
+           f"mass={case['mass']}", f"deg={case['deg']}", f"kpow={case['kpow']}", f"P={P}",
+           f"rescale={case.get('rescale', 'none')}"]
     obs = {"N": N, "M": M, "P": P, "T0": T0, "bases": [bM, bN], "grid": case["grid"],
            "mass": case["mass"], "vmid": rig.vmid}
 
@@ -378,8 +404,8 @@ def _case_exact(case):
                 worst[nm] = (ratio, a, al, float(got[k, a, al]), float(ref[a, al]),
                              float(tol[a, al]))
     obs["exact_err_over_tol"] = {nm: w[0] for nm, w in worst.items()}
-    obs["exact_rel_err_max"] = float(np.max([abs(w[3] - w[4]) / (abs(w[4]) + 1e-300)
-                                             for w in worst.values()]))
+    sel = np.take_along_axis(got, target[None], axis=0)[0]
+    obs["exact_err_over_scale_max"] = float(np.max(np.abs(sel - ref) / scale))
     for nm, w in worst.items():
         if not w[0] <= 1.0:
             viol.append({"mech": f"{nm}-differs-from-defined-momentum-integral" + sfx,
@@ -419,8 +445,8 @@ def _case_exact(case):
                                   rig.msq[a, idx], rig.vmid) for a, d in enumerate(dofs))
         tl = _tm_tol(D[:, :, idx], rig.msq[:, idx], dofs, rig.vmid)
         out = []
-        for nm, g_, w_ in (("T30", float(np.asarray(t30).ravel()[0]), tw[3, 0]),
-                           ("T33", float(np.asarray(t33).ravel()[0]), tw[3, 3])):
+        for nm, g_, w_ in (("T30", float(np.asarray(t30).ravel()[0]), float(tw[3, 0])),
+                           ("T33", float(np.asarray(t33).ravel()[0]), float(tw[3, 3]))):
             r_ = abs(g_ - w_) / tl
             out.append(r_)
             if not r_ <= 1.0:
@@ -561,7 +587,8 @@ def _case_smooth(case):
     part = WallGo.Particle("p0", 0, _make_msq(msq, (0.0, 0.0)), lambda f: 0.0 * f, "Boson", 1)
     rig.particles[:] = [part]
     solver = rig.solver("Cardinal", "Cardinal")
-    co = rng.normal(size=4)
+    # pure: (1 + pz/T0) exp(-E/T0), the equilibrium-like shape; else random-sign polynomial
+    co = np.array([1.0, 1.0, 0.0, 0.0]) if case.get("pure") else rng.normal(size=4)
 
     def fn(pz, pp, en):
         return (co[0] + co[1] * pz / T0 + co[2] * pp / T0 + co[3] * pz * pz / T0 ** 2) \
@@ -570,13 +597,20 @@ def _case_smooth(case):
     pp = np.asarray(rig.grid.ppValues)[None, None, None, :]
     en = np.sqrt(msq + pz ** 2 + pp ** 2) + np.zeros((1, rig.M - 1, 1, 1))
     df = (co[0] + co[1] * pz / T0 + co[2] * pp / T0 + co[3] * pz ** 2 / T0 ** 2) * np.exp(-en / T0)
-    got = _get(solver.getDeltas(df).Deltas)[:, 0, 0]
+    try:
+        got = _get(solver.getDeltas(df).Deltas)[:, 0, 0]
+    except Exception as exc:
+        return {"key": f"smooth:{case['i']}", "cls": "smooth-raise", "nontrivial": True, "obs": {},
+                "viol": [{"mech": "getDeltas-raises", "msg": f"getDeltas raised {exc!r} on a smooth "
+                          f"finite deviation (N={case['N']}, Cardinal bases)", "data": {}}],
+                "mon": {"getDeltas_calls": 1}}
     rel = {}
     for k, nm in enumerate(R.MOMENTS):
         ref, _ = R.dblquad_moment(fn, k, msq, T0, epsrel=1e-9, cut=40.0)
         rel[nm] = float(abs(got[k] - ref) / (abs(ref) + 1e-300))
     return {"key": f"smooth:{case['i']}", "cls": f"smooth-recorded:N={case['N']}",
             "nontrivial": False, "obs": {"N": case["N"], "m_over_T0": case["m"],
+                                         "pure": bool(case.get("pure")),
                                          "rel_diff_vs_dblquad": rel},
             "viol": [], "mon": {"smooth_recorded": 1, "getDeltas_calls": 1}}
 
@@ -609,7 +643,11 @@ def summarize(results, tier):
     out["residual_over_tolerance"]["tmunu"] = stats([r["obs"].get("tmunu_err_over_tol") for r in ex])
     out["residual_over_tolerance"]["additivity"] = stats(
         [r["obs"].get("additivity_err_over_tol") for r in ex])
-    out["exact_relative_error"] = stats([r["obs"].get("exact_rel_err_max") for r in ex])
+    out["exact_err_over_scale"] = {
+        "cardinal": stats([r["obs"].get("exact_err_over_scale_max") for r in ex
+                           if "Chebyshev" not in r["obs"].get("bases", [])]),
+        "chebyshev_input": stats([r["obs"].get("exact_err_over_scale_max") for r in ex
+                                  if "Chebyshev" in r["obs"].get("bases", [])])}
     sb = [r["obs"].get("scaling_bit_exact") for r in ex if "scaling_bit_exact" in r["obs"]]
     out["scaling_bit_exact_fraction"] = (sum(bool(x) for x in sb) / len(sb)) if sb else None
     out["beyond_class_err_over_scale"] = stats(
@@ -618,7 +656,9 @@ def summarize(results, tier):
     for r in results:
         if r["case"].get("kind") == "smooth" and not r["inconclusive"]:
             for nm, v in r["obs"]["rel_diff_vs_dblquad"].items():
-                sm.setdefault(f"N={r['obs']['N']}", {}).setdefault(nm, []).append(v)
+                lab = f"N={r['obs']['N']}" + (":(1+pz/T)exp(-E/T)" if r["obs"].get("pure")
+                                              else ":random-poly x exp(-E/T)")
+                sm.setdefault(lab, {}).setdefault(nm, []).append(v)
     out["smooth_recorded_not_judged"] = {n: {nm: stats(v) for nm, v in d.items()}
                                          for n, d in sorted(sm.items())}
     out["oracle_selftests"] = [r["obs"] for r in results if r["case"].get("kind") == "selftest"][:12]
